@@ -54,7 +54,7 @@ CHECKS = {
     "C15": dict(level="exploration", engine=E2, tech="property-based testing (proptest) + exhaustive enumeration of 1..3-octet INTEGERs and boundary neighbourhoods; oracle = independent minimal encoder (byte equality) and round-trip",
                 text="Every i64 of 1..2 (quick) / 1..3 (thorough) content octets and boundary neighbourhoods exhaustively, random i64, OIDs, OCTET STRINGs and v1/v2c/v3 request messages: encode == independent minimal encoder, decode(encode(x)) == x; scoped PDUs through the library's DES / AES encrypt -> decrypt -> decode give the PDU back, ciphertext length = reference length + < 1 block.",
                 note="Runs inside a mirror of the crate compiled from /repo/src; if the harness no longer builds the check is inconclusive (exit 2)."),
-    "C16": dict(level="exploration", engine=E2, tech="metamorphic property testing (proptest) + coverage-guided fuzzing (libFuzzer/ASan): from_ber(x||s) == (s, from_ber(x)); trailing bytes and nested length overruns must be rejected",
+    "C16": dict(level="exploration", engine=E2, tech="metamorphic property testing (proptest) + coverage-guided fuzzing (libFuzzer/ASan): from_ber(x||s) == (s, from_ber(x)); trailing bytes and nested length overruns must be rejected; plus property-based live DES / AES sessions (Hypothesis) with truncated encrypted payloads",
                 text="(x, s) pairs over all decoders and SnmpValue with suffixes biased to what an over-reading decoder would swallow; whole messages with appended bytes and inner lengths raised past their parent. A live part sends DES / AES replies whose encrypted payload ends 1..15 octets before the scoped PDU it declares; they must be refused.",
                 note="Only real containers are attacked; OCTET STRING payloads are opaque."),
     "C17": dict(level="exploration", tech="property-based size sweeps (Hypothesis, octet-by-octet around CAP) with dichotomy oracle + model-based testing of Buffer op sequences against a Vec model (proptest; libFuzzer/ASan)",
@@ -98,7 +98,7 @@ m = {
         "add_only": True,
     },
     "engines": [
-        {"name": "pyagent", "path": "py/", "serves_properties": sorted(k for k, v in CHECKS.items() if v.get("engine", "pyagent") == "pyagent"), "kind_free_text": E1},
+        {"name": "pyagent", "path": "py/", "serves_properties": sorted(set(k for k, v in CHECKS.items() if v.get("engine", "pyagent") == "pyagent") | {"C16"}), "kind_free_text": E1},
         {"name": "rsprop", "path": "rs/harness, rs/bins", "serves_properties": ["C02", "C15", "C16", "C17"], "kind_free_text": "proptest runners inside a mirror crate compiled from /repo/src"},
         {"name": "rsfuzz", "path": "rs/fuzz", "serves_properties": ["C01", "C16", "C17"], "kind_free_text": "cargo-fuzz (libFuzzer + ASan) targets over the mirror crate"},
     ],
